@@ -199,6 +199,8 @@ type PathResult struct {
 	PortfolioQueries int
 	NoNative         bool        // path depends on environment choices the native replay cannot force (crash point, injected fault, clock, select)
 	SampleTape       []TapeEntry // a concrete input driving this path (translator validation)
+	SampleFSPlan     []FSOp      // the OS calls of that path (injected failures / crash point), when it has any
+	NoNativeHard     bool        // path depends on stubs or a select choice: no native run can be forced down it
 }
 
 func (r *PathResult) addCut(s string) {
@@ -245,6 +247,7 @@ type HarnessResult struct {
 type SamplePath struct {
 	Tape    []TapeEntry
 	Reached []string
+	FSPlan  []FSOp
 }
 
 // ---------------------------------------------------------------------
@@ -367,7 +370,7 @@ func (e *Engine) Explore(fn *ssa.Function, name string) *HarnessResult {
 					hr.replayMissing = true
 				}
 				if res.SampleTape != nil && len(hr.SampleTapes) < e.SamplesPerHarness {
-					hr.SampleTapes = append(hr.SampleTapes, SamplePath{Tape: res.SampleTape, Reached: res.Reached})
+					hr.SampleTapes = append(hr.SampleTapes, SamplePath{Tape: res.SampleTape, Reached: res.Reached, FSPlan: res.SampleFSPlan})
 				}
 				for _, c := range res.Cuts {
 					hr.Cuts[c]++
@@ -477,11 +480,17 @@ func (e *Engine) runPath(wk *worker, fn *ssa.Function, prefix []int, wantSample 
 	}()
 	in.callFunction(fn, nil, nil)
 	res.Outcome = "ok"
-	if wantSample && !res.NoNative && len(res.Reached) > 0 && len(res.Violations) == 0 {
+	if wantSample && !res.NoNativeHard && len(res.Reached) > 0 && len(res.Violations) == 0 {
+		// paths with injected OS failures or a crash point are sampled too:
+		// they are replayed under a system-call tracer that forces the same
+		// failures (the plan says which calls)
 		if m := in.currentModel(); m != nil || len(in.inputTerms()) == 0 {
 			res.SampleTape = in.buildTape(m)
 			if res.SampleTape == nil {
 				res.SampleTape = []TapeEntry{}
+			}
+			if res.NoNative && in.fs != nil {
+				res.SampleFSPlan = append([]FSOp(nil), in.fs.plan...)
 			}
 		}
 	}
